@@ -3,7 +3,7 @@
 # Applies the patch to a scratch worktree of /repo's HEAD (outside /repo and
 # /verif), runs the quick checks against it (evidence redirected), prints one
 # line per check, removes the worktree.
-PATCH="$1"; shift
+PATCH="$(readlink -f "$1")"; shift
 HERE="$(cd "$(dirname "$0")/.." && pwd)"
 WT="$(mktemp -d /tmp/vp-mut-XXXXXX)"
 rmdir "$WT"
